@@ -70,6 +70,9 @@ pub const RO_REPLACE_WITH_NONE: u8 = 50;
 pub const RV_INSERT: u8 = 51;
 pub const RV_INSERT_HASHED: u8 = 52;
 pub const RV_INSERT_WITH_HASHER: u8 = 53;
+/// `insert` of a key *other than* the one the vacant entry was looked up with (the raw API allows it;
+/// the element must be filed under its own hash): the smallest absent id ever used, else the key itself.
+pub const RV_INSERT_OTHER: u8 = 54;
 
 pub fn mname(c: u8) -> &'static str {
     match c {
@@ -84,6 +87,7 @@ pub fn mname(c: u8) -> &'static str {
         RO_GET_KEY_VALUE => "rocc.get_key_value", RO_GET_KEY_VALUE_MUT => "rocc.get_key_value_mut", RO_INTO_KEY_VALUE => "rocc.into_key_value", RO_INSERT => "rocc.insert",
         RO_INSERT_KEY => "rocc.insert_key", RO_REMOVE => "rocc.remove", RO_REMOVE_ENTRY => "rocc.remove_entry", RO_REPLACE_WITH_SOME => "rocc.replace_entry_with(Some)",
         RO_REPLACE_WITH_NONE => "rocc.replace_entry_with(None)", RV_INSERT => "rvac.insert", RV_INSERT_HASHED => "rvac.insert_hashed_nocheck", RV_INSERT_WITH_HASHER => "rvac.insert_with_hasher",
+        RV_INSERT_OTHER => "rvac.insert(another key)",
         _ => "?",
     }
 }
@@ -145,7 +149,7 @@ pub fn methods(t: Ty) -> Vec<(u8, Ty)> {
     let o = vec![(O_KEY, O), (O_GET, O), (O_GET_MUT, O), (O_INTO_MUT, R), (O_INSERT, O), (O_REMOVE, Done), (O_REMOVE_ENTRY, Done), (O_REPLACE_ENTRY, Done), (O_REPLACE_KEY, Done), (O_REPLACE_WITH_SOME, E), (O_REPLACE_WITH_NONE, E)];
     let v = vec![(V_KEY, V), (V_INTO_KEY, Done), (V_INSERT, R)];
     let ro = vec![(RO_KEY, RO), (RO_KEY_MUT, RO), (RO_INTO_KEY, Done), (RO_GET, RO), (RO_INTO_MUT, R), (RO_GET_MUT, RO), (RO_GET_KEY_VALUE, RO), (RO_GET_KEY_VALUE_MUT, RO), (RO_INTO_KEY_VALUE, R), (RO_INSERT, RO), (RO_INSERT_KEY, RO), (RO_REMOVE, Done), (RO_REMOVE_ENTRY, Done), (RO_REPLACE_WITH_SOME, RE), (RO_REPLACE_WITH_NONE, RE)];
-    let rv = vec![(RV_INSERT, R), (RV_INSERT_HASHED, R), (RV_INSERT_WITH_HASHER, R)];
+    let rv = vec![(RV_INSERT, R), (RV_INSERT_HASHED, R), (RV_INSERT_WITH_HASHER, R), (RV_INSERT_OTHER, Done)];
     match t {
         ONoKey => o.into_iter().filter(|&(m, _)| m != O_REPLACE_ENTRY && m != O_REPLACE_KEY).map(|(m, t)| (m, if t == O { ONoKey } else { t })).collect(),
         E => {
@@ -322,6 +326,7 @@ fn run_entry_chain_inner<K: El, V: El>(m: &mut M<K, V>, r: &mut BTreeMap<u32, u3
             }
         }
     }
+    let mut no_key = false;
     for &mc in &ms {
         // match Entry -> Occupied/Vacant when a variant method is requested
         st = match (st, mc) {
@@ -329,8 +334,8 @@ fn run_entry_chain_inner<K: El, V: El>(m: &mut M<K, V>, r: &mut BTreeMap<u32, u3
             (St::E(Entry::Vacant(v)), 21..=23) => St::V(v),
             (St::E(_), 10..=23) => return Ok(obs ^ 0xE0),
             (St::RE(RawEntryMut::Occupied(o)), 36..=50) => St::RO(o),
-            (St::RE(RawEntryMut::Vacant(v)), 51..=53) => St::RV(v),
-            (St::RE(_), 36..=53) => return Ok(obs ^ 0xE1),
+            (St::RE(RawEntryMut::Vacant(v)), 51..=54) => St::RV(v),
+            (St::RE(_), 36..=54) => return Ok(obs ^ 0xE1),
             (s, _) => s,
         };
         obs = obs.wrapping_mul(31).wrapping_add(mc as u64 + 1);
@@ -339,7 +344,8 @@ fn run_entry_chain_inner<K: El, V: El>(m: &mut M<K, V>, r: &mut BTreeMap<u32, u3
             (St::E(e), E_INSERT) => {
                 let v = nv(r.0, lk);
                 let o = e.insert(harness(|| V::mk(v, false)));
-                r.insert(lk, V::norm(v));
+                // (a handle made by Entry::insert on a vacant entry holds no spare key)
+                no_key = r.insert(lk, V::norm(v)).is_none();
                 vcheck_eq!("Entry::insert -> occ.get", o.get().id(), V::norm(v));
                 vcheck_eq!("Entry::insert -> occ.key", o.key().id(), lk);
                 St::O(o)
@@ -466,6 +472,32 @@ fn run_entry_chain_inner<K: El, V: El>(m: &mut M<K, V>, r: &mut BTreeMap<u32, u3
                 let (k, old) = o.remove_entry();
                 vcheck_eq!("occ.remove_entry", Some((k.id(), old.id())), r.remove(&lk).map(|x| (lk, x)));
                 harness(|| drop((k, old)));
+                St::Done
+            }
+            (St::O(o), O_REPLACE_ENTRY) | (St::O(o), O_REPLACE_KEY) if no_key => {
+                // hashbrown documents that replace_key / replace_entry panic on such a handle.  A panic
+                // (an ordinary, catchable one that leaves the element alone) or a normal return are both
+                // fine; what must not happen is anything worse (the worker dying, a torn element).
+                let v = nv(r.0, lk);
+                let res = crate::util::catch(move || {
+                    if mc == O_REPLACE_KEY {
+                        let k = o.replace_key();
+                        harness(|| drop(k));
+                        false
+                    } else {
+                        let kv = o.replace_entry(harness(|| V::mk(v, false)));
+                        harness(|| drop(kv));
+                        true
+                    }
+                });
+                match res {
+                    Ok(true) => {
+                        r.insert(lk, V::norm(v));
+                    }
+                    Ok(false) => {}
+                    Err(msg) if msg.contains("`None`") => {}
+                    Err(msg) => vbail!("panic", "{} on a handle made by Entry::insert: {}", mname(mc), msg),
+                }
                 St::Done
             }
             (St::O(o), O_REPLACE_ENTRY) => {
@@ -730,6 +762,21 @@ fn run_entry_chain_inner<K: El, V: El>(m: &mut M<K, V>, r: &mut BTreeMap<u32, u3
                 vcheck_eq!("rvac.insert key", k.id(), lk);
                 vcheck_eq!("rvac.insert", rf.id(), V::norm(v));
                 St::R(rf)
+            }
+            (St::RV(ve), RV_INSERT_OTHER) => {
+                let top = r.0.keys().next_back().map_or(0, |k| k + 1);
+                let alt = if K::ZST { key } else { (0..top).find(|a| *a != key && !r.contains_key(a)).unwrap_or(key) };
+                let la = K::norm(alt);
+                let v = nv(r.0, la);
+                let kk = harness(|| K::mk(alt, true));
+                let vv = harness(|| V::mk(v, false));
+                let (k, rf) = ve.insert(kk, vv);
+                if r.insert(la, V::norm(v)).is_some() {
+                    vbail!("mismatch", "raw vacant handle: key {} was present", alt);
+                }
+                vcheck_eq!("rvac.insert(another key) key", k.id(), la);
+                vcheck_eq!("rvac.insert(another key)", rf.id(), V::norm(v));
+                St::Done
             }
             (_, _) => return Err(Viol::new("machinery", format!("chain {:?} is not type-correct at {}", ms, mname(mc)))),
         };
